@@ -757,7 +757,8 @@ const NASTY_ESCAPED: &[&str] = &[
 const SUFFIX: &[&str] = &["", "", "", "é", "日本", "😀", "_long_key_name_here"];
 
 fn gen_validation_doc(rng: &mut Rng, target: RTarget) -> String {
-    let n = rng.range(1, 6);
+    let n = if rng.chance(1, 3) { rng.range(6, 12) } else { rng.range(1, 6) };
+    let no_final_newline = rng.chance(1, 4);
     let bad = rng.below(n);
     let mut s = String::new();
     if target == RTarget::GardeMap {
@@ -776,6 +777,9 @@ fn gen_validation_doc(rng: &mut Rng, target: RTarget) -> String {
             s.push_str(&format!("  - {{n: {nval}, s: {sval}}}\n"));
         }
     }
+    if no_final_newline {
+        s.pop();
+    }
     s
 }
 
@@ -785,6 +789,9 @@ fn gen_two_location_doc(rng: &mut Rng) -> String {
     let (d, u) = *rng.pick(&[(1usize, 3usize), (2, 3), (1, 5), (2, 5), (4, 5), (9, 12), (10, 12), (11, 12), (8, 12), (13, 15), (14, 15), (6, 15)]);
     let n = rng.range(u, if u > 9 { 16 } else { 9 });
     let tab = rng.chance(1, 4);
+    // one line between definition and use padded beyond the 3 KiB window of recent bytes, so that for
+    // reader input the definition is no longer retained when the error is rendered
+    let long_line = if u > d + 1 && rng.chance(1, 5) { Some(rng.range(d + 1, u - 1)) } else { None };
     let eol = if rng.chance(1, 5) { "\r\n" } else { "\n" };
     let mut s = String::new();
     for i in 1..=n {
@@ -799,6 +806,8 @@ fn gen_two_location_doc(rng: &mut Rng) -> String {
         };
         if tab && (i == d || i == u) {
             s.push_str(&format!("k{i}:\t{v}{eol}"));
+        } else if long_line == Some(i) && i != 3 && i != 5 && i != 12 && i != 15 {
+            s.push_str(&format!("k{i}: {}{v}{eol}", " ".repeat(rng.range(3100, 5000))));
         } else {
             s.push_str(&format!("k{i}: {v}{eol}"));
         }
